@@ -344,6 +344,45 @@ def test_nested():
         expect(len({c11.canon(d) for d in c11.nest_docs_for(tier)}) == len(c11.nest_docs_for(tier)), f"{tier} nested documents distinct")
 
 
+def test_text_functions_and_flatten_value():
+    # TRIM/LTRIM/RTRIM(<expr> [, <characters>]) convert to text first; default character: the blank
+    eq(J.ltrim("  padded  "), "padded  ", "ltrim")
+    eq(J.rtrim("  padded  "), "  padded", "rtrim")
+    eq(J.trim_fn("r", "n ")("plain"), "plai", "rtrim(value, 'n ')")
+    eq(J.trim_fn("r", "n ")("  padded  "), "  padded", "rtrim(value, 'n ') keeps the leading blanks")
+    eq(J.trim_fn("b", "S ")("Str"), "tr", "trim(x, 'S ')")
+    eq(J.trim_fn("l", " p")("  pad  "), "ad  ", "ltrim(x, ' p')")
+    eq(J.ltrim(7), "7", "ltrim of a number is its text")
+    eq(J.rtrim(True), "true", "rtrim of a boolean")
+    expect(J.ltrim(None) is None and J.rtrim(M) is None and J.trim_fn("b", "x")(None) is None, "trim functions of NULL")
+    expect(J.rtrim({"k": " v "}) == J.JsonText({"k": " v "}), "the blanks inside a container's text are not at its ends")
+    eq(c11.expected("c_trim_eq", "  pad  "), True, "trim(x) = 'pad'")
+    eq(c11.expected("c_trim_eq", "Str"), False, "trim(x) = 'pad' false")
+    expect(c11.expected("c_trim_eq", None) is None, "trim(NULL) = 'pad' is NULL")
+    eq(c11.expected("c_upper_eq", "Str"), True, "upper(x::varchar) = 'STR'")
+    # the demo's list: what each FLATTEN row gives under TRIM
+    tags = ["  padded  ", "plain", 'q"uo\\te', 7, True, None, {"k": " v "}]
+    eq([c11.expected("trim", e) for e in tags][:6], ["padded", "plain", 'q"uo\\te', "7", "true", None], "trim over the elements")
+    eq([c11.expected("ltrim", e) for e in tags][:2], ["padded  ", "plain"], "ltrim over the elements")
+    eq(c11.fval_lists(c11.FVAL_INPUTS[3], "quick")[0], ["  padded  ", "plain"], "split rows")
+    eq(c11.fval_lists(c11.FVAL_INPUTS[3], "quick")[-1], [], "split of NULL flattens to nothing")
+    for tier, n in (("quick", 7), ("thorough", 11)):
+        eq(len(c11.fval_docs_for(tier)), 1 + n + n * n + (1 if tier == "quick" else 1), f"{tier} flatten-value rows")
+    h, pre, tail, val = c11._fval_stmt(c11.FVAL_INPUTS[1], c11.FVAL_VARIANTS[0], single=True)
+    eq((h, pre, tail, val), ("", "t.id", " from (select * from jf) t, lateral flatten(input => t.w:a) f", "f.value"), "aliased statement")
+    h, pre, tail, val = c11._fval_stmt(c11.FVAL_INPUTS[3], c11.FVAL_VARIANTS[4], single=True)
+    eq((h, pre, tail, val), ("with s as (select * from sf) ", "id", " from s, lateral flatten(input => split(s, ',')) ", "value"), "unaliased statement")
+    # runs of adjacent NULL-valued pairs
+    docs = c11.nullrun_docs("thorough")
+    d = {"k1": 1, "k2": None, "k3": None, "k4": None, "k5": 1}
+    expect(d in docs and {"k0": d} in docs and [d] in docs, "vNNNv at the top, in an object, in an array")
+    eq(c11.ctor_cause(c11.ctor_feats(d, "oc"), "oc"), "nullrun3+", "run of three")
+    eq(c11.ctor_cause(c11.ctor_feats({"k1": None, "k2": None, "k3": 1}, "oc"), "oc"), "nullrun2", "run of two")
+    eq(c11.ctor_cause(c11.ctor_feats({"k1": None, "k2": 1, "k3": None}, "oc"), "oc"), "nullpair.top", "non-adjacent NULLs are not a run")
+    eq(c11.ctor_expected(d, "oc"), {"k1": 1, "k5": 1}, "every pair of the run is dropped")
+    eq(c11.ctor_sql({"k1": None, "k2": None, "k3": 1}, "oc"), "object_construct('k1', NULL, 'k2', NULL, 'k3', 1)", "run as SQL")
+
+
 def test_oracle_on_synthetic_observations():
     j = c11._judge
     expect(j("json", "Str", ("ok", ['"Str"'])), "right extraction")
@@ -360,7 +399,7 @@ def test_oracle_on_synthetic_observations():
 
 if __name__ == "__main__":
     for t in (test_navigation, test_conversions, test_array_size_flatten_constructors_split, test_3vl, test_matches, test_ops_table,
-              test_generators, test_nested, test_oracle_on_synthetic_observations):  # fmt: skip
+              test_generators, test_nested, test_text_functions_and_flatten_value, test_oracle_on_synthetic_observations):  # fmt: skip
         print(t.__name__)
         t()
     print("FAILED" if FAILS else "ok", f"({len(FAILS)} failures)")
